@@ -26,8 +26,8 @@ CLAIMS = {
         design="7/C13",
     ),
     "C14": dict(
-        text="Machine-checked Coq proofs, unbounded in the value: (1) loads(dumps(v)) = v through xdis.marsh's own reader, and (2) CPython's marshal reader (the strict configuration of the shared reader model, validated against marshal.loads of the installed interpreters in C10) of the magic of EVERY Python 3 version in xdis's table returns v for xdis.marsh.dumps(v) - for every plain value tree: None, booleans, Ellipsis, StopIteration, integers of any magnitude (15-bit digit codec: digits denote the integer, are in range, top digit non-zero), floats/complex (written as text; the decimal string comes back), bytes, valid UTF-8 text, tuples, lists, sets, frozensets, dicts to any depth; the reader stops exactly where dumps stopped and its fuel (input length + 1) suffices. Model tied by correspondence: Model.Marsh.dumps vs xdis.marsh.dumps byte for byte; the host's real marshal.loads on those bytes; xdis.marsh.loads of the host's marshal.dumps(v, 0|1) (this third direction is correspondence only) on hosts 3.8-3.13.",
-        note="Trusted: Coq kernel; hand model coq/Model/Marsh.v (dumps) and the shared reader coq/Model/Unmarshal.v; repr(float)/float(str) are the host's (the theorem holds for any repr_float); harness value generator. Reading the HOST's dumps output (binary floats, interned short strings) with xdis.marsh.loads is decided by correspondence, not a theorem. NaN payloads are outside. No axioms.",
+        text="Machine-checked Coq proofs, unbounded in the value: (1) loads(dumps(v)) = v through xdis.marsh's own reader, and (2) CPython's marshal reader (the strict configuration of the shared reader model, validated against marshal.loads of the installed interpreters in C10) of the magic of EVERY Python 3 version in xdis's table returns v for xdis.marsh.dumps(v) - for every plain value tree: None, booleans, Ellipsis, StopIteration, integers of any magnitude (15-bit digit codec: digits denote the integer, are in range, top digit non-zero), floats/complex (written as text; the decimal string comes back), bytes, valid UTF-8 text, tuples, lists, sets, frozensets, dicts to any depth; the reader stops exactly where dumps stopped and its fuel (input length + 1) suffices; and (3) xdis.marsh's reader returns v for what CPython's own writer emits in format versions 0 and 1 (TYPE_INT when the int fits in 32 bits, '%.17g' float text, 'u' text) - the writer model is compared byte for byte with marshal.dumps(v, 0|1) of the host on every run. Model tied by correspondence: Model.Marsh.dumps vs xdis.marsh.dumps byte for byte; the host's real marshal.loads on those bytes; xdis.marsh.loads of the host's marshal.dumps(v, 0|1) by value, on hosts 3.8-3.13.",
+        note="Trusted: Coq kernel; hand model coq/Model/Marsh.v (dumps) and the shared reader coq/Model/Unmarshal.v; repr(float)/float(str) are the host's (the theorem holds for any repr_float); harness value generator. The host's writer is a model too (validated byte for byte; sets are written by marshal in an order of its own and are compared by value only). Formats 2+ of the host (binary floats, references, short ASCII strings) are read by xdis.unmarshal's reader - C10 - not by xdis.marsh. NaN payloads are outside. No axioms.",
         technique="Coq proof by induction over value trees (reader of writer = identity, generic in the reader configuration) + vm_compute obligation over the magic table + differential correspondence against the host marshal",
         design="7/C14",
     ),
